@@ -21,9 +21,13 @@ pub const CH: u16 = 2;
 
 /// Build the two-frame stack sprite described by `v` (8 coordinates per layer).
 pub fn stack_sprite(v: &[usize]) -> File {
+    stack_sprite_on(v, CW, CH)
+}
+
+pub fn stack_sprite_on(v: &[usize], cw: u16, chh: u16) -> File {
     let fmt = Fmt::Rgba;
     let n = v.len() / 8;
-    let mut f = gen::file(CW, CH, &fmt, &[100, 100]);
+    let mut f = gen::file(cw, chh, &fmt, &[100, 100]);
     // shared tileset for tilemap layers: 1x1 tiles, tile 0 transparent
     let uses_tilemap = (0..n).any(|i| v[i * 8 + 3] == 3);
     if uses_tilemap {
@@ -55,7 +59,7 @@ pub fn stack_sprite(v: &[usize]) -> File {
         let c = &v[i * 8..i * 8 + 8];
         let li = layer_index[i];
         let (w, h): (u16, u16) = match c[4] {
-            0 | 2 => (CW, CH),
+            0 | 2 => (cw, chh),
             1 => continue,
             3 => (1, 1),
             4 => (2, 3),
@@ -115,6 +119,25 @@ pub fn run(ctx: &Ctx) -> i32 {
         if n == 2 {
             ctx.sample(json!({"family": fam, "case": describe(&vecs[vecs.len() / 2]), "meaning": "coordinates that differ from the default stack; frame and cel images of both frames compared with the reference compositor"}));
         }
+    }
+    // the same balls on a portrait canvas (2 wide, 3 tall) for 1 and 2 layers
+    for n in 1..=2usize {
+        let k = if thorough { 3 } else { 2 };
+        let fam = format!("stack-portrait-n{}-k{}", n, k);
+        if !ctx.wants_family(&fam) {
+            continue;
+        }
+        let dims: Vec<usize> = (0..n).flat_map(|_| LAYER_DIMS.iter().copied()).collect();
+        let vecs = ball_vec(&dims, k);
+        ctx.family(&fam, vecs.len() as u64, &format!("{}-layer stacks on a 2x3 (portrait) canvas: Hamming ball of radius {} over the same per-layer coordinates", n, k), true);
+        vecs.par_iter().for_each(|v| {
+            let case = || describe(v);
+            if !ctx.wants(&fam, &case) {
+                return;
+            }
+            let f = stack_sprite_on(v, 2, 3);
+            conform(ctx, &fam, &case, &f, &want);
+        });
     }
     offsets(ctx, thorough);
     opacities(ctx);
